@@ -369,9 +369,9 @@ op("filt_invert", "df", lambda x: x[~(x["a"] > 2)], tier=3)
 op("assign_align", "df", lambda x: x.assign(z=_other_layout(x, "b")), lsens=True, tier=3)
 op("ufunc_align", "df", _ufunc_align, lsens=True, tier=3)
 op("explode_frame", "df", lambda x: x.explode("c"), tier=3, tags=("dup",))
-op("gb_a_ffill", "df", lambda x: x.groupby("a")["b"].ffill(), osens=True, tier=3)
-op("gb_a_bfill", "df", lambda x: x.groupby("a")[["b", "u"]].bfill(), osens=True, tier=3)
-op("gb_a_shift", "df", lambda x: x.groupby("a")["u"].shift(1), osens=True, tier=3)
+op("gb_a_ffill", "df", lambda x: x.groupby("a")["b"].ffill(), osens=True, tier=3, tags=("order_through_shuffle",))
+op("gb_a_bfill", "df", lambda x: x.groupby("a")[["b", "u"]].bfill(), osens=True, tier=3, tags=("order_through_shuffle",))
+op("gb_a_shift", "df", lambda x: x.groupby("a")["u"].shift(1), osens=True, tier=3, tags=("order_through_shuffle",))
 op("gb_a_cumcount", "df", lambda x: x.groupby("a")["b"].cumcount(), osens=True, tier=3)
 op("gb_a_std", "df", lambda x: x.groupby("a")["b"].std(), order="lose", labels="new", tier=3)
 op("gb_a_count_min", "df", lambda x: x.groupby("a").agg({"b": ["count", "min"], "u": "max"}), order="lose", labels="new", tier=3)
